@@ -51,13 +51,14 @@ type c32Cfg struct {
 type c32Req struct {
 	Hf    string     `json:"hf"`
 	Xfh   bool       `json:"xfh"`
-	Port  bool       `json:"port"`
+	Form  string     `json:"form"` // textual form of the host: plain | port | port80 | upper | dot | dotport
 	Https bool       `json:"https"`
 	Ns    string     `json:"ns"`
 	Id    c32Id      `json:"id"`
 	Segs  []string   `json:"segs"`
 	Q     string     `json:"q"`
 	Recs  [][]string `json:"recs"`
+	Gwrec bool       `json:"gwrec"` // the gateway's own host name has a DNSLink record
 }
 type c32Out struct {
 	T     string   `json:"t"`
@@ -69,6 +70,7 @@ type c32Out struct {
 	Segs  []string `json:"segs"`
 	Q     string   `json:"q"`
 	Ctx   string   `json:"ctx"`
+	Name  []string `json:"name"` // pre = "gwdns": the DNSLink name (the gateway's own host name)
 }
 type c32Case struct {
 	Cfg       c32Cfg   `json:"cfg"`
@@ -92,8 +94,32 @@ type c32Backend struct {
 	recs        map[string]bool
 }
 
+// c32DNSName: the DNS name a host text denotes (DNS compares names case-insensitively and the root
+// label's trailing dot is only notation).  A port is NOT removed: it is not part of a name.
+func c32DNSName(host string) string {
+	return strings.TrimSuffix(strings.ToLower(host), ".")
+}
+
+// c32HostForm writes a host name in the given textual form.
+func c32HostForm(host, form string) string {
+	switch form {
+	case "port":
+		return host + ":8080"
+	case "port80":
+		return host + ":80"
+	case "upper":
+		return strings.ToUpper(host)
+	case "dot":
+		return host + "."
+	case "dotport":
+		return host + ".:8080"
+	}
+	return host
+}
+
+// GetDNSLinkRecord answers like DNS: for the name the text denotes.
 func (b *c32Backend) GetDNSLinkRecord(ctx context.Context, host string) (path.Path, error) {
-	if b.recs[host] {
+	if b.recs[c32DNSName(host)] {
 		return path.NewPath("/ipfs/bafkqaaa")
 	}
 	return nil, errors.New("no DNSLink record")
@@ -235,10 +261,8 @@ func c32NewSim(w *c32World, c c32Case) *c32Sim {
 	if c.Cfg.Wild {
 		key, host = "*.gw.test", "foo.gw.test"
 	}
-	if c.Req.Port {
-		host += ":8080"
-	}
-	s.gwHostP = host
+	gwName := host
+	s.gwHostP = c32HostForm(host, c.Req.Form)
 	paths := []string{"/ipfs", "/ipns"}
 	if c.Cfg.Paths == "ipfs" {
 		paths = []string{"/ipfs"}
@@ -249,6 +273,9 @@ func c32NewSim(w *c32World, c c32Case) *c32Sim {
 	be := &c32Backend{recs: map[string]bool{}}
 	for _, r := range c.Req.Recs {
 		be.recs[strings.Join(r, "")] = true
+	}
+	if c.Req.Gwrec {
+		be.recs[gwName] = true
 	}
 	next := http.HandlerFunc(func(rw http.ResponseWriter, r *http.Request) {
 		s.seen = &c32Obs{Called: true, Path: r.URL.Path, RawQ: r.URL.RawQuery,
@@ -289,13 +316,14 @@ func (s *c32Sim) first() (c32Obs, string) {
 		host = s.gwHostP
 		p = "/" + q.Ns + "/" + url.PathEscape(s.w.text(q.Id)) + c32Esc(q.Segs)
 	case "sub":
+		// the identifier label is left as it is (base58 is case-sensitive); "upper" covers <ns>.<gateway>
 		host = s.w.text(q.Id) + "." + q.Ns + "." + s.gwHostP
+		if q.Form == "upper" {
+			host = s.w.text(q.Id) + "." + strings.ToUpper(q.Ns) + "." + s.gwHostP
+		}
 		p = c32Esc(q.Segs)
 	default:
-		host = s.w.text(q.Id)
-		if q.Port {
-			host += ":8080"
-		}
+		host = c32HostForm(s.w.text(q.Id), q.Form)
 		p = c32Esc(q.Segs)
 	}
 	if p == "" {
@@ -318,15 +346,28 @@ func (s *c32Sim) match(e c32Out, o c32Obs, reqHost string) (bool, string) {
 		if !o.Called {
 			return false, "expected the wrapped handler to be called"
 		}
-		want := ""
+		want, got := "", o.Path
 		switch e.Pre {
 		case "nsid":
 			want = "/" + e.Ns + "/" + s.w.text(e.Id)
 		case "dnslink":
 			want = "/ipns/" + s.w.text(e.Id)
+		case "gwdns":
+			want = "/ipns/" + strings.Join(e.Name, "") + "/" + e.Ns + "/" + s.w.text(e.Id)
 		}
 		want += c32Raw(e.Segs)
-		if o.Path != want {
+		if e.Pre == "dnslink" || e.Pre == "gwdns" {
+			// projection: the DNSLink name component is compared as a DNS NAME (case, trailing dot);
+			// a port or any other text makes it a different name
+			if rest, ok := strings.CutPrefix(got, "/ipns/"); ok {
+				name, tail, _ := strings.Cut(rest, "/")
+				got = "/ipns/" + c32DNSName(name)
+				if len(rest) > len(name) {
+					got += "/" + tail
+				}
+			}
+		}
+		if got != want {
 			return false, fmt.Sprintf("expected path %q", want)
 		}
 		if o.RawQ != e.Q {
